@@ -520,7 +520,9 @@ func (bh *Header) RemoveReference(r *Reference) error {
 	}
 	bh.refs = append(bh.refs[:r.id], bh.refs[r.id+1:]...)
 	for i := range bh.refs[r.id:] {
-		bh.refs[i+int(r.id)].id--
+		e := bh.refs[i+int(r.id)]
+		e.id--
+		bh.seenRefs[e.name] = e.id
 	}
 	r.id = -1
 	delete(bh.seenRefs, r.name)
@@ -550,7 +552,9 @@ func (bh *Header) RemoveReadGroup(rg *ReadGroup) error {
 	}
 	bh.rgs = append(bh.rgs[:rg.id], bh.rgs[rg.id+1:]...)
 	for i := range bh.rgs[rg.id:] {
-		bh.rgs[i+int(rg.id)].id--
+		e := bh.rgs[i+int(rg.id)]
+		e.id--
+		bh.seenGroups[e.name] = e.id
 	}
 	rg.id = -1
 	delete(bh.seenGroups, rg.name)
@@ -580,7 +584,9 @@ func (bh *Header) RemoveProgram(p *Program) error {
 	}
 	bh.progs = append(bh.progs[:p.id], bh.progs[p.id+1:]...)
 	for i := range bh.progs[p.id:] {
-		bh.progs[i+int(p.id)].id--
+		e := bh.progs[i+int(p.id)]
+		e.id--
+		bh.seenProgs[e.uid] = e.id
 	}
 	p.id = -1
 	delete(bh.seenProgs, p.uid)
